@@ -253,6 +253,22 @@ impl FixtureDatabase {
         hasher.finish()
     }
 
+    /// Check if a file lives in a `site-packages` directory (installed, third-party code).
+    ///
+    /// For a file of the workspace only the part of its path below the workspace root counts:
+    /// a project that happens to be checked out somewhere under a directory called
+    /// `site-packages` is not third-party code, while a virtualenv inside the project is.
+    pub(crate) fn is_in_site_packages(&self, file_path: &Path) -> bool {
+        let workspace = self.workspace_root.lock().unwrap();
+        let relevant = match *workspace {
+            Some(ref ws) => file_path.strip_prefix(ws).unwrap_or(file_path),
+            None => file_path,
+        };
+        relevant
+            .components()
+            .any(|component| component.as_os_str() == "site-packages")
+    }
+
     /// Check if a file path is inside an editable install that is NOT within the workspace.
     /// Returns true if the file is from an external editable install (third-party).
     pub(crate) fn is_editable_install_third_party(&self, file_path: &Path) -> bool {
